@@ -419,6 +419,8 @@ def apply_steps(steps, ref, est, stop_before_metric=False, capture=None):
                 est.reduce_to_ids(ids)
             else:
                 raise core.ToolError("unknown plan step " + op)
+        if metric is not None:
+            metric.get_result()      # result assembly of ape()/rpe(): statistics of the error array
     return ref, est, metric
 
 
@@ -655,6 +657,14 @@ def cli_oracle(ctx, case, impl, which):
             ctx.fail(case, "cli-refusal", f"documented pipeline raises {want_exc}, evo_{which} stored {len(impl['error_array'])} values")
         return want_exc
     if impl["exc"] is not None:
+        if impl["exc"] == "ValueError" and which == "rpe" and rel == "point_distance_error_ratio" and pairs is not None:
+            eref = [mc.F12(p) for p in mc.seen_poses(ref)]
+            if all(P2.dist_sq(eref[i], eref[j]) == 0 for i, j in pairs):
+                ctx.fail(case, "stores-result-when-every-pair-is-skipped",
+                         f"evo_rpe raised {impl['exc']}: {impl.get('exc_msg')}: all {len(pairs)} selected pairs have reference "
+                         "distance zero, no result is stored",
+                         tags={"relation": rel, "cause": "all-reference-distances-zero", "exception": "ValueError"})
+                return None
         ctx.fail(case, "cli-runs", f"evo_{which} raised {impl['exc']}: {impl.get('exc_msg')} but the documented pipeline succeeds")
         return None
     vals = [float(v) for v in impl["error_array"].reshape(-1)]
@@ -766,7 +776,9 @@ def interpret(case, impl, plan):
                 st = [float(x) for x in tr.timestamps] if hasattr(tr, "timestamps") else [float(k) for k in range(tr.num_poses)]
                 run["capture"][name] = (st, mc.seen_poses(tr))
             run["ref"], run["est"], run["metric"] = apply_steps(parse_plan(plan), ref, est, capture=run["capture"])
-        except EvoException as e:
+        except core.ToolError:
+            raise
+        except Exception as e:  # noqa: evo's own exceptions, and numpy's ValueError on an empty error array
             run["exc"] = type(e).__name__
     return run
 
